@@ -23,7 +23,7 @@ type mlListener struct {
 
 func scenarioMultiListen() int {
 	run := ev.New("C06", "exploration",
-		"services with three listeners each (own backends, must-record-route differing per listener) on the real -race binary: next hops are taught through one listener (request from the hop's UDP socket or over a TCP connection from its address) and then routed to through the same or another listener, "+
+		"services with three listeners each (own backends, must-record-route differing per listener) and one service whose only listener has no UDP port (two TCP backends, callers and backend connections coming and going) on the real -race binary: next hops are taught through one listener (request from the hop's UDP socket or over a TCP connection from its address) and then routed to through the same or another listener, "+
 			"with and without existing Record-Route entries; backend path through every listener; oracle = learned-route model shared by the listeners of a service: the pushed Via must name a transport through which the hop was learned (backend path: a transport of the receiving listener), Record-Route by policy, nothing for an unlearned hop; one branch set for the whole process; distinct = (path, learned-through vs. routed-through, policy) cells")
 	plan := wire.NewPlan()
 	net := wire.NewNet()
@@ -47,6 +47,24 @@ func scenarioMultiListen() int {
 			svc.Listens = append(svc.Listens, li)
 			ls = append(ls, &mlListener{svc: s, l: l, ip: ip, mustRR: li.MustRecordRoute, be: be})
 		}
+		cfg.Services = append(cfg.Services, svc)
+	}
+	// a third service whose only listener has no UDP port at all, in front of two TCP backends
+	tcpOnlyIP := plan.Listener(2, 0)
+	var tcpOnlyBe []*wire.TCPListener
+	{
+		svc := &wire.Service{Index: 2, Name: "svc2.verif.test"}
+		li := wire.Listen{Address: tcpOnlyIP, TCPPort: wire.TCPPort, MustRecordRoute: true}
+		for k := 1; k <= 2; k++ {
+			addr := fmt.Sprintf("%s:%d", plan.Backend(2, k), wire.BackendPort)
+			l, err := net.Listen(fmt.Sprintf("be2.%d/tcp", k), addr)
+			if err != nil {
+				return fail(err)
+			}
+			tcpOnlyBe = append(tcpOnlyBe, l)
+			li.Backends = append(li.Backends, "tcp://"+addr)
+		}
+		svc.Listens = append(svc.Listens, li)
 		cfg.Services = append(cfg.Services, svc)
 	}
 	sentinel, err := net.UDP("sentinel", fmt.Sprintf("%s:%d", plan.Sentinel(), wire.SentinelUDP))
@@ -260,6 +278,63 @@ func scenarioMultiListen() int {
 			net.Trim()
 		}
 	}
+	// --- the TCP-only listener: callers come and go, backend connections are opened and re-opened
+	// in between; every request handed to a backend must name the listener in the pushed Via
+	tcpRounds := ev.Pick(10, 150)
+	tcpJudged := 0
+	for r := 0; r < tcpRounds && run.Violations() <= 6; r++ {
+		if !proxy.Alive() || proxy.Crashed() {
+			run.Violation("proxy died during the run", map[string]any{"stderr": proxy.StderrHead(3000)})
+			break
+		}
+		var c *wire.TCPConn
+		for try := 0; try < 100 && c == nil; try++ {
+			if c, err = net.Dial(fmt.Sprintf("caller%d", r), uas[r%len(uas)].IP()+":0", fmt.Sprintf("%s:%d", tcpOnlyIP, wire.TCPPort)); err != nil {
+				c = nil
+				time.Sleep(20 * time.Millisecond)
+			}
+		}
+		if c == nil {
+			run.Inconclusive(1)
+			continue
+		}
+		for k := 0; k < 1+g.R.Intn(3); k++ {
+			seq++
+			id := fmt.Sprintf("o%d", seq)
+			m := wire.StdRequest(id, g.Method(), "sip:svc2.verif.test", "tcp", uas[r%len(uas)].IP(), wire.UDPPort)
+			wire.SetHeader(m, "To", "<tel:+15550143>")
+			nrr := addSomeRR(g, m)
+			c.Send(m.Bytes(), id)
+			obs, ok := net.WaitCase(id, func(o []*wire.Obs) bool { return len(o) > 0 }, 5*time.Second)
+			if !ok || obs[0].Msg == nil {
+				run.Inconclusive(1)
+				continue
+			}
+			allowed := map[string]bool{fmt.Sprintf("TCP %s:%d", tcpOnlyIP, wire.TCPPort): true}
+			if why := mlJudge(obs[0].Msg, m, allowed, true, true, false, branches, id); why != "" {
+				run.Violation("backend path through a listener without UDP port: "+why, map[string]any{"listener": tcpOnlyIP, "round": r, "seen_at": obs[0].Ep, "input": string(m.Bytes()), "output": string(obs[0].Raw)})
+				continue
+			}
+			tcpJudged++
+			relayedOK++
+			run.Eval(fmt.Sprintf("tcp-only|backend|rr%d|round-kind%d", vfMin(nrr, 1), r%4))
+		}
+		// the caller hangs up; every other round the backends drop their connections too, so that the
+		// next request makes the proxy open a backend connection after a caller has gone
+		c.Close(r%4 >= 2)
+		if r%2 == 0 {
+			for _, l := range tcpOnlyBe {
+				for _, bc := range l.Conns() {
+					if !bc.EOF() {
+						bc.Close(false)
+					}
+				}
+			}
+		}
+		time.Sleep(30 * time.Millisecond)
+		net.Trim()
+	}
+	run.Observe("requests_through_the_tcp_only_listener_judged", tcpJudged)
 	run.Observe("relayed_and_judged", relayedOK)
 	run.Observe("distinct_proxy_branches", len(branches))
 	run.Observe("race_reports_during_run", len(wire.RaceReports(proxy.Dir, "sipproxy")))
